@@ -102,3 +102,66 @@ def reachable_bodies(facts, roots, follow_closures=True):
                     if nm and nm in facts.bodies and nm not in seen:
                         work.append(nm)
     return seen
+
+
+_PX0 = None
+
+
+def final_read(ctx, o, root, path):
+    """value of a place at the end of path `o`"""
+    global _PX0
+    if _PX0 is None or _PX0.facts is not ctx.facts:
+        _PX0 = P.PX(ctx.facts)
+    return _PX0._read(o.state, root, path)
+
+
+def self_field(ctx, o, field, param=1):
+    return final_read(ctx, o, ("H", ("param", param)), (("f", field),))
+
+
+def entry_field(field, param=1):
+    """term a field of *self has at function entry"""
+    return ("field", ("deref", ("param", param)), field)
+
+
+def impl_fn(ctx, trait, self_adt, method):
+    """body name of `impl trait for self_adt`'s method (by item facts, not by string building)"""
+    out = []
+    for f in ctx.facts.fns.values():
+        if f.get("impl_trait") == trait and f["path"].endswith("::" + method) and (f.get("impl_self") or "").split("<")[0] == self_adt:
+            out.append(f["path"])
+    return out
+
+
+def inherent_fn(ctx, self_adt, method):
+    out = []
+    for f in ctx.facts.fns.values():
+        if not f.get("impl_trait") and f["path"].endswith("::" + method) and (f.get("impl_self") or "").split("<")[0] == self_adt:
+            out.append(f["path"])
+    return out
+
+
+def poll_shape(v):
+    """classify a Poll<Option<Result<..>>> value term -> ('Pending'|'None'|'Ok'|'Err'|'?', payload)"""
+    if not is_agg(v):
+        return "?", v
+    if v[3] == "Pending":
+        return "Pending", None
+    if v[3] == "Ready":
+        o = agg_get(v, "0")
+        if is_agg(o):
+            if o[3] == "None":
+                return "None", None
+            if o[3] == "Some":
+                r = agg_get(o, "0")
+                if is_agg(r) and r[3] in ("Ok", "Err"):
+                    return r[3], agg_get(r, "0")
+                return "Some?", r
+        return "Ready?", o
+    return "?", v
+
+
+def cons_zone(o, extra=(), terms=()):
+    cc = P.Cons()
+    cc.rel = list(o.cons.rel)
+    return Zone(cc, extra_rels=extra, extra_terms=terms)
